@@ -21,6 +21,7 @@ fixed("C14", "70ebd79", "same for the stream adapter at Ready(None) and the sink
 fixed("C07", "4eb6543", "BorrowMutError panic: LocalSpan::with_properties / LocalSpan::add_properties ran the user's closure while the thread's span stack was mutably borrowed; any tracing call inside the closure panicked (C07-reentrant programs)")
 fixed("C07", "ab07ac6", "debug assertion `token.is_some()` failed in LocalParentGuard::drop for a scope opened beyond the 4096-scope limit (C07-scopes programs)")
 fixed("C07", "7d7d7a3", "panic 'cannot access a Thread Local Storage value during or after destruction' from Span::root / SpanContext::random / TraceId::random / SpanId::random / the first local span of a thread when called from a thread-local destructor that runs after rand's thread-local generator was destroyed (C07-teardown programs)")
+fixed("C15", "6de71ac", "side effects lost: #[trace] on a plain function whose tail expression is Box::pin(async move { .. }) took the function for async-trait output and replaced the whole body by the instrumented pinned future; every statement before the tail was dropped (twin `boxed_move`: log 'setup:0' missing in the annotated function)")
 
 # K1: attachments to a span that has several parents in ONE trace
 K1 = ("attachment to a span created with several parents that belong to the same trace: the span is delivered once per parent, "
